@@ -133,10 +133,12 @@ def setRange (t : List Nat) (d : Nat) : List Nat → List Nat
 
 inductive TblOp
   | null (i : Nat) | move (i j : Nat) | isnull (i : Nat) | grow (n : Nat) | size | copy (d s n : Nat)
+  | reff (i k : Nat)      -- table.set i (ref.func c_k): a reference created at run time
 deriving DecidableEq, Repr
 
 def tblOp (mx : Nat) (t : List Nat) : TblOp → List Nat × Res
   | .null i => if i < t.length then (t.set i 0, .ok []) else (t, .trap "tbl")
+  | .reff i k => if i < t.length then (t.set i (k + 1), .ok []) else (t, .trap "tbl")
   | .move i j =>
     if j < t.length then (if i < t.length then (t.set i (t.getD j 0), .ok []) else (t, .trap "tbl")) else (t, .trap "tbl")
   | .isnull i => if i < t.length then (t, .ok [if t.getD i 0 = 0 then 1 else 0]) else (t, .trap "tbl")
